@@ -210,6 +210,13 @@ def main():
                     ['HandOver'])
     S.model_refutes(rep, 'Session', 'MC_Session_bad_stale-result.cfg',
                     ['FileIsCurrent'])
+    # strategy_ddmin.reduce above one mutator (DdminOuter.tla)
+    S.model_check(rep, [('DdminOuter', 'MC_DdminOuter.cfg', 300),
+                        ('DdminOuter', 'MC_DdminOuter_nogrowth.cfg', 300)])
+    S.model_refutes(rep, 'DdminOuter', 'MC_DdminOuter_bad_leave-early.cfg',
+                    ['Stage1LeftAtFixpoint'])
+    S.model_refutes(rep, 'DdminOuter', 'MC_DdminOuter_bad_stop-early.cfg',
+                    ['StopsOnlyAfterQuietSweep'])
     for v in ('noskip', 'lower'):
         S.model_refutes(rep, 'DdminBad', f'MC_DdminBad_{v}.cfg',
                         ['Chain', 'NoStaleAdoption'])
